@@ -261,6 +261,7 @@ func ExecRun(t *testing.T, sc *Scenario, tape *simrt.Tape, seed, run uint64, kee
 			rec.Switches = res.Switches
 			rec.Tasks = res.Tasks
 			rec.Preempts = res.Preempts
+			rec.Knobs["schedule-strategy(0=uniform,1=pct,2=starve-one)"] = res.Strategy
 			rec.TraceHash = res.TraceHash
 			if !rc.nontrivialSet {
 				rec.Nontrivial = res.Decisions >= 2
